@@ -312,13 +312,22 @@ func init() {
 					return "group-name", val, g[0].ShortDescription
 				}
 			case 1:
-				fields = []reflect.StructField{sfield("G", inner, `group:"G" namespace:`+rv)}
+				// a namespaced group holding an option and a nested group without namespace; a top-level --y is legal next to <ns>.y
+				plain := reflect.StructOf([]reflect.StructField{sfield("Y", strT, `long:"y"`)})
+				outer := reflect.StructOf([]reflect.StructField{sfield("X", strT, `long:"x"`), sfield("P", plain, `group:"Plain"`)})
+				fields = []reflect.StructField{sfield("G", outer, `group:"G" namespace:`+rv), sfield("TopY", strT, `long:"y"`)}
 				verify = func(p *flags.Parser) (string, interface{}, interface{}) {
 					g := p.Groups()[0].Groups()[0]
 					if g.Namespace != val {
 						return "namespace", val, g.Namespace
 					}
-					return "namespaced-long-name", val + "." + "x", g.Options()[0].LongNameWithNamespace()
+					if got := g.Options()[0].LongNameWithNamespace(); got != val+".x" {
+						return "namespaced-long-name", val + ".x", got
+					}
+					if len(g.Groups()) != 1 || len(g.Groups()[0].Options()) != 1 {
+						return "nested-plain-group", 1, len(g.Groups())
+					}
+					return "long-name-through-plain-nested-group", val + ".y", g.Groups()[0].Options()[0].LongNameWithNamespace()
 				}
 			case 2:
 				fields = []reflect.StructField{sfield("G", reflect.StructOf([]reflect.StructField{sfield("X", strT, `long:"x" env:"K"`)}), `group:"G" env-namespace:`+rv)}
@@ -362,13 +371,21 @@ func init() {
 				}
 			case 5:
 				fields = []reflect.StructField{sfield("Args", reflect.StructOf([]reflect.StructField{
-					sfield("A", strT, "positional-arg-name:"+rv+" description:"+c19Render(val+"D", how)),
+					sfield("A", strT, "positional-arg-name:"+rv+" description:"+c19Render(val+"D", how)+` required:"3-4"`),
+					sfield("B", strT, ""),
 					sfield("R", reflect.TypeOf([]string{}), `required:"2-5"`)}), `positional-args:"yes"`)}
 				verify = func(p *flags.Parser) (string, interface{}, interface{}) {
 					as := p.Args()
-					if len(as) != 2 {
-						return "positional-count", 2, len(as)
+					if len(as) != 3 {
+						return "positional-count", 3, len(as)
 					}
+					if as[0].Required != 3 || as[0].RequiredMaximum != 4 {
+						return "positional-own-range", [2]int{3, 4}, [2]int{as[0].Required, as[0].RequiredMaximum}
+					}
+					if as[1].Name != "B" || as[1].Required != -1 || as[1].RequiredMaximum != -1 {
+						return "positional-without-marks", [3]interface{}{"B", -1, -1}, [3]interface{}{as[1].Name, as[1].Required, as[1].RequiredMaximum}
+					}
+					as = []*flags.Arg{as[0], as[2]}
 					if as[0].Name != val {
 						return "positional-name", val, as[0].Name
 					}
@@ -497,15 +514,31 @@ func init() {
 			}
 			fa, _ := mk("A", placeA, la, sa)
 			fb, _ := mk("B", placeB, lb, sb)
+			viaGroupAPI := c.Bool() // add the declaration through (*Group).AddGroup on an existing group instead of NewParser
 			c.Describe(func() interface{} {
 				return map[string]interface{}{"part": "collisions", "A": fmt.Sprintf("place %d long %q short %q", placeA, la, sa), "B": fmt.Sprintf("place %d long %q short %q", placeB, lb, sb), "duplicate": dup}
 			})
-			_, err, pan := c19Parse([]reflect.StructField{fa, fb})
+			var err error
+			var pan interface{}
+			if viaGroupAPI {
+				func() {
+					defer func() { pan = recover() }()
+					p := flags.NewNamedParser("app", flags.None)
+					host, e := p.AddGroup("Host", "", reflect.New(reflect.StructOf([]reflect.StructField{sfield("H", strT, `long:"hostopt"`)})).Interface())
+					if e != nil {
+						err = e
+						return
+					}
+					_, err = host.AddGroup("Added", "", reflect.New(reflect.StructOf([]reflect.StructField{fa, fb})).Interface())
+				}()
+			} else {
+				_, err, pan = c19Parse([]reflect.StructField{fa, fb})
+			}
 			if pan != nil {
 				c.Fail("panic-on-declaration|"+panicClass(pan), fmt.Sprint(pan))
 				return
 			}
-			c.Outcome("collision", fmt.Sprint(kind, placeA, placeB, collide), errType(err))
+			c.Outcome("collision", fmt.Sprint(kind, placeA, placeB, collide, viaGroupAPI), errType(err))
 			if dup {
 				c.Hit("duplicate")
 				if !isErrType(err, flags.ErrDuplicatedFlag) {
@@ -552,7 +585,7 @@ func init() {
 		Rule: "(i) every tag string of length <= 8 (quick) / <= 9 (thorough) over {a : \" \\ space LF}, alone and behind a well-formed long:\"opt\", classified by a reference tag grammar (accept / reject / grey); " +
 			"(ii) 9 option attributes x 15 values (blanks, quotes, backslashes, line breaks, tabs, multi-byte text, empty, colons) x 3 escape renderings (strconv.Quote, all-\\xNN, octal+raw) x 1..3 repetitions x 1..3 blanks; " +
 			"(iii) required/optional/hidden x 9 spellings x present/absent x short names of 0/1/2 characters incl. multi-byte; (iv) group name/namespace/env-namespace, command name + 0..3 aliases, descriptions, positional names, ranges and minimum counts x values x renderings; " +
-			"(v) every pair of placements {top, plain subgroup, namespaced, doubly namespaced} x {same name, near miss, collision created by namespaces} x {long, short incl. non-ASCII}; (vi) default tags on bool / []bool / *bool vs string types; " +
+			"(v) every pair of placements {top, plain subgroup, namespaced, doubly namespaced} x {same name, near miss, collision created by namespaces} x {long, short incl. non-ASCII} x {declared through NewParser, added with (*Group).AddGroup to an existing group}; (vi) default tags on bool / []bool / *bool vs string types; " +
 			"oracle: exported model fields echo the attributes exactly, malformed tags => ErrTag, long short name => ErrShortNameTooLong, bool default => ErrInvalidTag, colliding names => ErrDuplicatedFlag, never a panic; distinct = distinct (part, cell, error class)",
 		Assumptions:  []string{"keys containing control characters or backslashes, and empty keys, are grey (no panic, any error typed)", "single-valued keys are repeated with the same value only", "falsy spellings false/no/0 do not set a mark on options (pinned by the repository's tests)"},
 		RequiredHits: []string{"tag-reject", "tag-accept", "tag-grey", "echo:default", "echo:choice", "mark:required", "short-too-long", "structure", "duplicate", "near-collision", "bool-default"},
